@@ -150,8 +150,13 @@ tokFilled:
 
 	start.Head = expr
 
-	tok, err = lexer.PeekNextToken(0)
+	// the list is still open: if the input pauses here, wait for more
+	// before deciding whether a dotted pair follows.
+	tok, err = parser.ParserPeekNextToken(0)
 	if err != nil {
+		if err == ParserHaltRequested {
+			return SexpEnd, nil
+		}
 		return SexpNull, err
 	}
 
